@@ -87,9 +87,9 @@ Lemma hask_cons : forall x e E, hask x (e :: E) = (e_key e =? x) || hask x E.
 Proof. reflexivity. Qed.
 
 Ltac cmp_arith :=
-  unfold mstep, add_delb, incr_del, incr_file, add_fileb, maybe_max, add64, b2n, vsize in *;
+  unfold mstep, add_delb, incr_del, incr_file, add_fileb, maybe_max, add64, b2n, vsize;
   repeat match goal with |- context [if ?c then _ else _] => destruct c end;
-  cbn [m_file m_del m_delb m_fileb m_max] in *; unfold two32, two64 in *; lia.
+  cbn [m_file m_del m_delb m_fileb m_max]; unfold two32, two64 in *; lia.
 
 Lemma cmp_walk : forall k m1 E, cmp k m1 E (fst (Rg (m1, [k]) E)) (fst (Rg (metric0, []) E)).
 Proof.
@@ -97,9 +97,10 @@ Proof.
   - unfold cmp. cbn [Rg fold_right fst metric0 m_file m_del m_delb m_fileb m_max hask existsb last_valid b2n].
     repeat split; try (f_equal; lia); lia.
   - rewrite !Rg_fst_cons. cbn [snd]. unfold mem at 1 2. cbn [existsb]. rewrite !orb_false_r.
-    set (ma := fst (Rg (m1, [k]) E)) in *. set (mb := fst (Rg (metric0, []) E)) in *.
+    remember (fst (Rg (m1, [k]) E)) as ma eqn:Ema. remember (fst (Rg (metric0, []) E)) as mb eqn:Emb.
+    clear Ema Emb.
     destruct IH as [Hf [Hd [Hdb [Hfb Hmx]]]]. unfold cmp.
-    rewrite hask_cons. cbn [last_valid].
+    rewrite hask_cons. cbn [last_valid]. unfold b2n in Hf, Hd.
     destruct (N.eqb_spec (e_key e) k) as [Ek|Ek].
     + (* an entry of key k *)
       rewrite Ek. rewrite orb_true_r. cbn [orb andb].
